@@ -104,3 +104,33 @@ func Pow(x, y *big.Float) *big.Float {
 func RelErr(got, want *big.Float) *big.Float {
 	return Fabs(Fsub(Fquo(got, want), F(1)))
 }
+
+// PowTol is the absolute error bound of osmomath.Pow(base, exp) for base in (0,2): the series behind
+// the fractional part stops when a term drops below 1e-8; for base<1 all later terms share a sign, so
+// the tail is bounded by 1e-8*|x|/(1-|x|) (x = base-1), for base>=1 it alternates (tail <= 1e-8);
+// the integer part multiplies it; (1e-15 + 2e-18*floor(exp))*(1+result) covers 18-decimal rounding of the series and of the square-and-multiply integer power. Integer exponents have
+// no series error. (Checked against the implementation over the whole domain by the C13 harness.)
+// ForceSeriesTerm makes PowTol include the series term even for integer exponents (callers whose
+// implementation-side exponent is a rounded quotient and therefore not exactly the integer).
+var ForceSeriesTerm = false
+
+func PowTol(base, exp *big.Float) *big.Float {
+	want := Pow(base, exp)
+	ip, _ := exp.Int(nil)
+	// 18-decimal rounding: 1e-15 flat, plus the square-and-multiply integer power whose relative error
+	// doubles per squaring, i.e. grows linearly with the exponent (2e-18 per unit of exponent)
+	rel := Fadd(Fquo(F(1), FI(Pow10(15))), Fmul(FI(ip), Fquo(F(2), FI(Pow10(18)))))
+	round := Fmul(rel, Fadd(F(1), want))
+	if nf().SetInt(ip).Cmp(exp) == 0 && !ForceSeriesTerm {
+		return round
+	}
+	x := Fabs(Fsub(base, F(1)))
+	amp := F(1)
+	if base.Cmp(F(1)) < 0 {
+		if a := Fquo(x, Fsub(F(1), x)); a.Cmp(amp) > 0 {
+			amp = a
+		}
+	}
+	ipow := Pow(base, FI(ip))
+	return Fadd(Fmul(ipow, Fmul(Fquo(F(1), FI(Pow10(8))), amp)), round)
+}
